@@ -65,10 +65,13 @@ type gen struct {
 	commitTs  map[uint64]bool
 }
 
+// Most key sets contain byte-prefix-related user keys: record scans that decide
+// "same key" by prefix instead of equality only show with such neighbours.
 var keySets = [][]string{
-	{"a", "b", "c", "d"},
+	{"a", "ab", "abc", "b"},
 	{"k", "k1", "k12", "m"},
-	{"key-1", "key-2", "key-3", "key-4"},
+	{"key-1", "key-10", "key-2", "key-20"},
+	{"a", "b", "c", "d"},
 }
 
 // Generate draws a history.  The reference model is run while generating so that
